@@ -824,6 +824,47 @@ pub fn idless_field_scenario(name: &str, depth: usize, extra: &[Op]) -> Scenario
     }
 }
 
+/// Two levels of flattening where the OUTER element survives a concurrent deletion while its INNER array does
+/// not: replica 0 edited x twice (its live version outranks the deletion) and the inner array once; replica 1
+/// edited the inner array and then deleted x (which deletes the inner descriptor at a higher index than replica
+/// 0's edit script). After the exchange x is back in the array with a deleted inner array.
+pub fn nested_deleted_scenario(name: &str, depth: usize, extra: &[Op]) -> Scenario {
+    let xi = |v: u32, inner: Vec<Value>| json!({"_id":"x","v":v,"n♭":inner});
+    let w = || json!({"_id":"w","v":1});
+    let u = || json!({"_id":"u","v":1});
+    let docs = vec![
+        json!({"l♭":[xi(1, vec![z()]), y()]}),
+        json!({"l♭":[xi(2, vec![z(), w()]), y(), {"_id":"c","v":1}]}),
+        json!({"l♭":[xi(3, vec![z(), w()]), y(), {"_id":"c","v":1}]}),
+        json!({"l♭":[xi(1, vec![u(), z()]), y()]}),
+        json!({"l♭":[y()]}),
+        json!({"l♭":[xi(3, vec![w()]), y(), {"_id":"c","v":1}]}),
+    ];
+    let mut alphabet = vec![Op::Snapshot(0), Op::Snapshot(1), Op::Commit(0, 0), Op::Commit(1, 0), Op::Unstage(0), Op::Sync(0, 1), Op::Sync(1, 0), Op::Reopen(0), Op::Upd(0, 5), Op::Upd(1, 5)];
+    for j in 0..2 {
+        for k in 0..2 {
+            alphabet.push(Op::Resolve(0, j, k));
+        }
+    }
+    alphabet.extend_from_slice(extra);
+    Scenario {
+        name: name.to_string(),
+        nrep: 2,
+        menu: menu(docs),
+        prologue: vec![
+            Op::Upd(0, 0), Op::Commit(0, 0), Op::Sync(1, 0),
+            Op::Upd(0, 1), Op::Commit(0, 0), Op::Upd(0, 2), Op::Commit(0, 0),
+            Op::Upd(1, 3), Op::Commit(1, 0), Op::Upd(1, 4), Op::Commit(1, 0),
+            Op::Sync(0, 1), Op::Sync(1, 0),
+        ],
+        alphabet,
+        key_opts: KeyOpts::default(),
+        max_depth: depth,
+        track: true,
+        order: None,
+    }
+}
+
 pub fn combo_scenarios(thorough: bool) -> Vec<Scenario> {
     let d = |q: usize, t: usize| if thorough { t } else { q };
     vec![
@@ -837,6 +878,7 @@ pub fn combo_scenarios(thorough: bool) -> Vec<Scenario> {
         alternating_scenario("combo-alternating-documents", d(4, 5), &[]),
         nested_conflict_scenario("combo-nested-flattening-conflict", d(4, 5), &[]),
         idless_field_scenario("combo-idless-object-in-flattened-field", d(4, 5), &[]),
+        nested_deleted_scenario("combo-outer-element-survives-inner-array-deleted", d(2, 3), &[]),
     ]
 }
 
